@@ -55,6 +55,9 @@ type Module struct {
 	inlineOn   bool
 	anchorOff  bool
 	helperSite map[*ssa.Function]*ssa.Call
+	// deferClosure: deferred function literals whose body is spliced at RunDefers
+	deferClosure map[*ssa.Defer]*ssa.Function
+	deferSite    map[*ssa.Function]*ssa.Defer
 }
 
 func loadEnv() []string {
@@ -285,4 +288,80 @@ func (m *Module) fieldOf(rel, typ, name string) *types.Var {
 		}
 	}
 	return nil
+}
+
+
+// ---- anchors by role ----
+//
+// A helper that the properties do not name can be renamed freely. Such a
+// helper is looked up by name first and, when the name is gone, by the role
+// that made it an anchor (given as a predicate that exactly one function of
+// the package / method of the type satisfies).
+
+func (m *Module) funcByRole(rel, name string, role func(*ssa.Function) bool) *ssa.Function {
+	if fn := m.lookupFunc(rel, name); fn != nil {
+		return fn
+	}
+	p := m.pkg(rel)
+	if p == nil {
+		return nil
+	}
+	var found []*ssa.Function
+	for _, fn := range m.Funcs {
+		if fn.Pkg == p && fn.Parent() == nil && fn.Signature.Recv() == nil && role(fn) {
+			found = append(found, fn)
+		}
+	}
+	if len(found) == 1 {
+		m.anchor(found[0])
+		return found[0]
+	}
+	return nil
+}
+
+func (m *Module) methodByRole(rel, typ, name string, role func(*ssa.Function) bool) *ssa.Function {
+	if fn := m.lookupMethod(rel, typ, name); fn != nil {
+		return fn
+	}
+	n := m.lookupType(rel, typ)
+	if n == nil {
+		return nil
+	}
+	var found []*ssa.Function
+	for _, fn := range m.Funcs {
+		if fn.Parent() != nil || fn.Signature.Recv() == nil || !typeIs(fn.Signature.Recv().Type(), n) {
+			continue
+		}
+		if role(fn) {
+			found = append(found, fn)
+		}
+	}
+	if len(found) == 1 {
+		m.anchor(found[0])
+		return found[0]
+	}
+	return nil
+}
+
+// storesField: fn contains a store whose address ends in field f.
+func storesField(fn *ssa.Function, f *types.Var) bool {
+	for _, b := range fn.Blocks {
+		for _, in := range b.Instrs {
+			if st, ok := in.(*ssa.Store); ok {
+				if lf, rest := lastField(accessPath(st.Addr)); lf == f && rest == "" {
+					return true
+				}
+			}
+		}
+	}
+	return false
+}
+
+// nParams: number of parameters without the receiver.
+func nParams(fn *ssa.Function) int {
+	n := len(fn.Params)
+	if fn.Signature.Recv() != nil {
+		n--
+	}
+	return n
 }
